@@ -92,6 +92,16 @@ def features():
         yield ("rate:" + rid, "invariant-parentheses", dict(inv="(x' == %s) && x <= 5" % rate), "", {"symbolic"})
         yield ("rate:" + rid, "invariant-right-nested", dict(inv="x <= 5 && (i >= 0 && x' == %s)" % rate), "", {"symbolic"})
         yield ("rate:" + rid, "invariant-clock-array", dict(decl="clock x; clock xs[2]; hybrid clock h;", inv="xs[1]' == %s" % rate), "", {"symbolic"})
+    # a restricting conjunct next to a universally quantified rate (the type checker rewrites such invariants before the feature
+    # checker sees them)
+    qd = "clock x; clock xs[2]; hybrid clock h;"
+    q = "(forall (k : int[0,1]) xs[k]' == 0)"
+    for pid, inv in (("rate-after-quantified-rate", q + " && x' == 2"), ("rate-before-quantified-rate", "x' == 2 && " + q),
+                     ("fp-bound-after-quantified-rate", q + " && x <= 1.5"), ("fp-bound-before-quantified-rate", "x <= 1.5 && " + q),
+                     ("rate-after-bound-after-quantified-rate", q + " && x <= 5 && x' == 3"),
+                     ("rate-inside-and-after-quantifier", "(forall (k : int[0,1]) xs[k]' == 2) && x <= 5"),
+                     ("rate-after-plain-quantifier", "(forall (k : int[0,1]) xs[k] <= 7) && x' == 2")):
+        yield ("quantified-invariant", pid, dict(decl=qd, inv=inv), "", {"symbolic"})
     # dynamic templates
     yield ("dynamic-template", "declared", dict(), "dynamic Dy();", {"symbolic"})
     # non-broadcast channels
